@@ -17,7 +17,8 @@
 From AV Require Import Base.Bytes Base.Outcome Hash.HashModel Spec.SpecOps Spec.SpecReal Tree.Heap Tree.Ops Tree.Script Tree.Inv Tree.Range Tree.ValidSubs
   Tree.SpecWF Tree.SpecWFReal Tree.RangeProofsCalc Tree.RangeProofsOps Tree.RangeProofsLoader Tree.RangeProofsReal Tree.RangeProofsParser Tree.RangeProofsNamed Tree.CopyProofsDefs Tree.RangeProofsInv Tree.Project Tree.RangeProofsProject Tree.RangeProofsReload
   Tree.CompatTyped Tree.CompatHist1 Tree.CompatHist4 Tree.RangeProofsAttach Tree.RangeProofsAttachCopy
-  Tree.Serialize Tree.Files Tree.ProjectCanon Tree.RangeProofsReloadFile Tree.RangeProofsCanon Tree.RangeProofsMoveSame.
+  Tree.Serialize Tree.Files Tree.ProjectCanon Tree.RangeProofsReloadFile Tree.RangeProofsCanon Tree.RangeProofsMoveSame
+  Tree.OrdHist Tree.OrdHistReal.
 From AV Require Xml.Serializer Xml.StrictValidDef Xml.RoundTripFile.
 From AV Require Xml.Parser.
 Open Scope list_scope.
@@ -512,3 +513,38 @@ Theorem C07_copy_keeps_unnamed_nested_refuted :
     find_sub_element RT (n_type nc) (n_name nk) v = Val (Some (n_type nk, [0])) /\
     e_create_sub_element RT REAL_LATEST c (n_name nk) w' = Val (ER ItemNameRequired, w2).
 Proof. exact copy_keeps_unnamed_nested. Qed.
+
+(* ------------------------------------------------------------------ histories: specification order is an invariant of the API *)
+(* [U] In every world reached from the empty world by ANY history of the operations of Tree/Script.v — successful or failing
+   calls alike — all of whose create_file calls use one version v (single_version v ops: decidable, a condition on the history
+   alone; v must be a version the model knows: v <= LATEST), the child list of EVERY allocated element (attached, removed or
+   left over by a failed copy) is in specification order for v, on every table set with SpecWF.
+   Per operation: the 15 operations that neither allocate nor add a sub-element only shrink child lists (Tree/OrdFrameOps.v);
+   create / create_named / get_or_create insert inside the computed range (C07_range_exact); copy: deep_copy's child lists are
+   sub-sequences, name by name, of the source's, the destination by C07_order_inv_copy; move: the destination by
+   C07_order_inv_move_all, the rest by a frame.  The version: all files have version v and local file sets only name existing
+   files, hence Element::min_version answers v (Tree/OrdHist.v mv_of_files).
+   Outside the side condition the statement is false: C07_order_history_refuted (known finding mixed-version-files).  The order
+   is by the STORED types: what move / copy below a parent that lists the name with another type do to the loader's view is
+   C07_move_resolves_type_refuted / C07_move_typed_loader_accepts. *)
+Theorem C07_order_histories :
+  forall T : tables, SpecWF T ->
+  forall (tab_el tab_en : nametab) (check_fn : N -> list N -> res bool) (LATEST : N) (root_attrs : list (N * cdata)) (v : N),
+  v <= LATEST ->
+  forall (ops : list op) (w : world),
+  single_version v ops = true ->
+  run_ops T tab_el tab_en check_fn LATEST root_attrs ops empty_world = Val w ->
+  forall (i : id) (n : node), w_nodes w i = Some n ->
+  exists items, items_of w (n_content n) = Some items /\ Ordered T (n_type n) v items.
+Proof. exact order_histories. Qed.
+
+(* [F+U] the same on the tables of the current source *)
+Theorem C07_order_histories_real :
+  forall (tab_el tab_en : nametab) (check_fn : N -> list N -> res bool) (root_attrs : list (N * cdata)) (v : N),
+  v <= REAL_LATEST ->
+  forall (ops : list op) (w : world),
+  single_version v ops = true ->
+  run_ops RT tab_el tab_en check_fn REAL_LATEST root_attrs ops empty_world = Val w ->
+  forall (i : id) (n : node), w_nodes w i = Some n ->
+  exists items, items_of w (n_content n) = Some items /\ Ordered RT (n_type n) v items.
+Proof. exact order_histories_real. Qed.
